@@ -796,6 +796,125 @@ def hrf_table():
     return {'hrf_table_code': code}
 
 
+def _self_targets(fn):
+    """names X of every `self.X = / += / : T =` in a function, in source order"""
+    out = []
+    for n in ast.walk(fn):
+        tg = []
+        if isinstance(n, ast.Assign):
+            tg = n.targets
+        elif isinstance(n, (ast.AugAssign, ast.AnnAssign)):
+            tg = [n.target]
+        elif isinstance(n, (ast.With, ast.For)):
+            tg = [i.optional_vars for i in n.items if i.optional_vars is not None] \
+                if isinstance(n, ast.With) else [n.target]
+        elif isinstance(n, ast.NamedExpr):
+            tg = [n.target]
+        for t in tg:
+            for sub in ast.walk(t):
+                if isinstance(sub, ast.Attribute) and u(sub.value) == 'self':
+                    out.append(sub.attr)
+                elif isinstance(sub, ast.Attribute) and isinstance(sub.ctx, ast.Store):
+                    # state stored on another object (the layout, the bold file, a class)
+                    raise Underivable(f'{fn.name}: assignment to `{u(sub)}`')
+                elif isinstance(sub, ast.Subscript) and isinstance(sub.ctx, ast.Store) \
+                        and isinstance(sub.value, ast.Attribute) and u(sub.value.value) != 'self':
+                    raise Underivable(f'{fn.name}: assignment into `{u(sub.value)}`')
+    return out
+
+
+def _class(path, name):
+    hits = [n for n in ast.walk(_tree(path)) if isinstance(n, ast.ClassDef) and n.name == name]
+    need(len(hits) == 1, f'{path}: class {name} not found')
+    return hits[0]
+
+
+def bids_state():
+    """the state the BIDS classes carry between calls: which attributes exist, where the two
+    caches (`_meta`, `_data`) live and what guards them; no other memory (class-level values,
+    module globals, memoising decorators, mutable defaults, setattr / __dict__ tricks)"""
+    out = {}
+    for path in ('io/bids.py', 'io/fmriprep.py'):
+        tree = _tree(path)
+        for n in ast.walk(tree):
+            need(not isinstance(n, (ast.Global, ast.Nonlocal)), f'{path}: global / nonlocal statement')
+            if isinstance(n, (ast.FunctionDef, ast.ClassDef)):
+                for d in n.decorator_list:
+                    need(u(d) == 'property', f'{path}: decorator @{u(d)} on {n.name}')
+            if isinstance(n, ast.FunctionDef):
+                for d in list(n.args.defaults) + [k for k in n.args.kw_defaults if k is not None]:
+                    need(isinstance(d, ast.Constant), f'{path}: non-literal default `{u(d)}` in {n.name}')
+            if isinstance(n, ast.Call):
+                need(u(n.func) not in ('setattr', 'vars', 'globals', 'object.__setattr__'),
+                     f'{path}: call of {u(n.func)}')
+            if isinstance(n, ast.Attribute):
+                need(n.attr != '__dict__', f'{path}: use of .{n.attr}')
+        for st in tree.body:
+            ok = isinstance(st, (ast.Import, ast.ImportFrom, ast.FunctionDef, ast.ClassDef)) \
+                or (isinstance(st, ast.Expr) and isinstance(st.value, ast.Constant)) \
+                or (isinstance(st, ast.If) and u(st.test) == 'TYPE_CHECKING'
+                    and all(isinstance(b, (ast.Import, ast.ImportFrom)) for b in st.body))
+            if path == 'io/fmriprep.py' and isinstance(st, ast.Assign):
+                continue      # none today; constants of the design matrix would be harmless
+            need(ok, f'{path}: module-level statement `{u(st)[:40]}`')
+    for path in ('io/bids.py', 'io/fmriprep.py'):
+        for n in ast.walk(_tree(path)):
+            if isinstance(n, ast.FunctionDef):
+                _self_targets(n)
+    for cname in ('BidsFile', 'BidsTableFile', 'BidsJsonFile', 'BidsMriFile', 'BidsLayout'):
+        for st in _class('io/bids.py', cname).body:
+            ok = isinstance(st, ast.FunctionDef) \
+                or (isinstance(st, ast.AnnAssign) and st.value is None) \
+                or (isinstance(st, ast.Expr) and isinstance(st.value, ast.Constant))
+            need(ok, f'class {cname}: class-level statement `{u(st)[:40]}`')
+    for st in _class('io/fmriprep.py', 'FmriprepRun').body:
+        ok = isinstance(st, ast.FunctionDef) or (isinstance(st, ast.AnnAssign) and st.value is None) \
+            or (isinstance(st, ast.Expr) and isinstance(st.value, ast.Constant))
+        need(ok, f'class FmriprepRun: class-level statement `{u(st)[:40]}`')
+    lay = _class('io/bids.py', 'BidsLayout')
+    fields = []
+    for fn in lay.body:
+        if isinstance(fn, ast.FunctionDef):
+            fields += _self_targets(fn)
+    out['st_layout_fields'] = enc(','.join(sorted(set(fields))))
+    # file objects: __init__ assigns relpath, layout, _meta; every other attribute is an entity
+    # set by _deconstruct; no other method of a file class assigns to self except the caches
+    init = _func('io/bids.py', '__init__', 'BidsFile')
+    out['st_file_fields'] = enc(','.join(_self_targets(init)))
+    dec = set(_self_targets(_func('io/bids.py', '_deconstruct', 'BidsFile')))
+    need(dec == set(ALL_ENTS), f'_deconstruct assigns {sorted(dec)}')
+    jinit = _func('io/bids.py', '__init__', 'BidsJsonFile')
+    out['st_json_fields'] = enc(','.join(_self_targets(jinit)))
+    need(_self_targets(_func('io/bids.py', '__init__', 'BidsMriFile')) == ['nibabel'], 'BidsMriFile.__init__')
+    assigned = {}
+    for cname in ('BidsFile', 'BidsTableFile', 'BidsJsonFile', 'BidsMriFile'):
+        for fn in _class('io/bids.py', cname).body:
+            if isinstance(fn, ast.FunctionDef) and fn.name not in ('__init__', '_deconstruct'):
+                for t in _self_targets(fn):
+                    assigned.setdefault(f'{cname}.{fn.name}', []).append(t)
+    need(assigned == {'BidsFile.get_meta': ['_meta'], 'BidsJsonFile.get_data': ['_data']},
+         f'attributes assigned outside the constructors: {assigned}')
+    gm = '\n'.join(u(x) for x in _body(_func('io/bids.py', 'get_meta', 'BidsFile')))
+    need(gm == 'if self._meta is None:\n    self._meta = self.layout.find_meta_for(self)\n'
+               'return self._meta.get_data()', f'get_meta: {gm!r}')
+    out['st_meta_cache'] = enc('self._meta')
+    gd = '\n'.join(u(x) for x in _body(_func('io/bids.py', 'get_data', 'BidsJsonFile')))
+    need(gd == 'if self._data is None:\n    with open(self.fpath) as fhandle:\n'
+               '        self._data = json.load(fhandle)\nreturn self._data', f'get_data: {gd!r}')
+    out['st_data_cache'] = enc('self._data')
+    # an fMRIPrep run holds its bold file and nothing else; the search builds its own layout
+    run = _class('io/fmriprep.py', 'FmriprepRun')
+    rf = []
+    for fn in run.body:
+        if isinstance(fn, ast.FunctionDef):
+            rf += _self_targets(fn)
+    out['st_run_fields'] = enc(','.join(rf))
+    ffr = _body(_func('io/fmriprep.py', 'find_fmriprep_runs'))
+    need(len(ffr) == 3 and u(ffr[0]) == 'bids = BidsLayout(bids_root_path)'
+         and u(ffr[2]) == 'return [FmriprepRun(f) for f in files]', 'find_fmriprep_runs shape')
+    return out
+
+
 # ------------------------------------------------------------------ write the derived file
 
 def _derive():
@@ -860,6 +979,9 @@ def _derive():
                 'ml_utv_from', 'ml_utv_to', 'ml_json_type'], meadows_loader)
     emit_group(['sp_name_sep', 'sp_run_tok', 'sp_run_lo', 'sp_run_hi_back', 'sp_name_tok',
                 'sp_reloc_from', 'sp_reloc_to', 'sp_reloc_anchor'], spm_constants)
+
+    emit_group(['st_layout_fields', 'st_file_fields', 'st_json_fields', 'st_meta_cache',
+                'st_data_cache', 'st_run_fields'], bids_state)
 
     text = '\n'.join(out)
     if not (os.path.exists(DERIVED) and open(DERIVED).read() == text):
